@@ -1176,6 +1176,7 @@ func (c *Component) loadAccessSessionKeys(ctx context.Context) (map[string]struc
 func (c *Component) commitRestoredPBA(ctx context.Context, mapping *models.CGNATMapping) {
 	if err := c.pools.RestoreMappingIfAbsent(mapping); err != nil {
 		c.logger.Warn("CGNAT restore: local pool restore", "session", mapping.SessionID, "error", err)
+		return
 	}
 	c.reverse.Add(mapping)
 
